@@ -15,6 +15,7 @@ def dispatch : String → Option (String → String)
   | "C04" => some Lifetimes.runLine
   | "C05" => some Lower.runLine
   | "C06" => some Rename.runLine
+  | "C08" => some JsLayout.runLine
   | "C11" => some EnumGen.runLine
   | "C12" => some Write.runLine
   | "C17" => some Config.runLine
